@@ -141,6 +141,8 @@ structure Flags where
   p018 : Bool := true
   p026 : Bool := true
   p027 : Bool := true
+  /-- 014: the jump table has STAKE / UNSTAKE / UNSTAKEALL / AUTH / AUTHCALL -/
+  p014 : Bool := true
 
 /-- `delta = StrToBigInt("0.0001")` before Proposal026 -/
 def txFeeOld : Nat := 100000000000000
@@ -304,6 +306,8 @@ structure St where
   height : Nat := 0
   /-- journal of `suicideChange` entries (contract, balance recorded by `Suicide`), newest first -/
   sj : List (Addr × Nat) := []
+  /-- the jump table has the Proposal014 opcodes (STAKE, UNSTAKE, UNSTAKEALL, AUTH, AUTHCALL); constant during a block -/
+  p014 : Bool := true
 
 /-- Addresses handed to CREATE/CREATE2 frames: above the 160-bit range, so never one of the op-line addresses
     (in the code: keccak of (creator, nonce) / (creator, salt, code); collision with a live address is the
@@ -431,13 +435,16 @@ def exec (code : Code) (origin : Addr) (jr : Bool) : Nat → Addr → Bool → S
           let r := exec code origin jr f na false init { s0 with bal := vmTransfer s0.bal self na v }
           if r.2 then r.1 else revertToJ jr s0 r.1
       exec code origin jr f self ro rest s1
-    | .stake v => exec code origin jr f self ro rest (opStake s self v)
-    | .unstake v => exec code origin jr f self ro rest (opUnStake code origin s self v)
+    | .stake v => if !s.p014 then (s, false) else exec code origin jr f self ro rest (opStake s self v)
+    | .unstake v => if !s.p014 then (s, false) else exec code origin jr f self ro rest (opUnStake code origin s self v)
     | .unstakeAll =>
+      if !s.p014 then (s, false) else
       match opUnStakeAll code s self with
       | none => (s, false)
       | some s1 => exec code origin jr f self ro rest s1
     | .authcall to v =>
+      -- before Proposal014 AUTH / AUTHCALL are invalid opcodes: the frame fails
+      if !s.p014 then (s, false) else
       -- evm.AuthCall with a valid authorisation: the sponsor (tx origin) pays the value
       let s1 :=
         if v != 0 && !canTransfer s.bal origin v then s
@@ -582,6 +589,18 @@ def minerRefund (code : Code) (s : St) (src : Addr) (id : Nat) (amount : Option 
     | none => none
     | some (r', refund, acct) => some ({ s with reg := r' }, [(s.height + refundDelay, acct, toWei refund)])
 
+/-- `minerChangeAccountExecutor.Execute` (type 6): the miner must exist, the new account must differ from the current
+    one, the sender must be the current account, and the new account must not own a (visible) miner. Only the
+    registry changes. -/
+def minerChange (s : St) (src : Addr) (id : Nat) (newAcct : Addr) : Option St :=
+  match regGet s.reg id with
+  | none => none
+  | some m =>
+    if m.account = newAcct then none
+    else if m.account ≠ src then none
+    else if (byAccount s.reg newAcct).isSome then none
+    else some { s with reg := regSet s.reg { m with account := newAcct } }
+
 /-- `ten = StrToBigInt("10")` of executor/miner_node_executor.go -/
 def nodeFee : Nat := 10000000000000000000
 
@@ -616,6 +635,7 @@ inductive Tx where
   | addStake (src : Addr) (id delta : Nat)                                     -- MinerAdd (type 5)
   | refund (src : Addr) (id : Nat) (amount : Option Nat) (signed : Bool)       -- MinerRefund (type 3)
   | node (src : Addr) (newAcct : Addr) (mainOk : Bool)                         -- OperatorNode (type 7)
+  | changeAccount (src : Addr) (id : Nat) (newAcct : Addr)                     -- MinerChangeAccount (type 6)
 
 /-- Block-scoped executor context: `context["gasUsed"]` is never cleared between transactions. -/
 structure Ctx where
@@ -675,6 +695,13 @@ def execTx (fuel : Nat) (w : World) : Tx → World × Status
         ({ w with st := { w.st with bal := if w.fl.p002 || decide (get b1 src < nodeFee) then b1
                                             else (subBal b1 src nodeFee).1 } }, .failed)
       | some s2 => ({ w with st := s2 }, .success)
+  | .changeAccount src id newAcct =>
+    match processFeeWith (txFeeOf w.fl) w.st.bal src with
+    | none => (w, .failed)
+    | some b1 =>
+      match minerChange { w.st with bal := b1 } src id newAcct with
+      | none => ({ w with st := { w.st with bal := b1 } }, .failed)
+      | some s2 => ({ w with st := s2 }, .success)
   | .contract t =>
     match contractBefore w.fl w.st.bal t with
     | .inl (status, b) => ({ w with st := { w.st with bal := b } }, status)
@@ -724,7 +751,7 @@ def markVisible : Reg → Reg
     `rewards` into the escrow, pay what is due at `h`), then the commit: registry writes become visible to the
     account iterator, suicided accounts lose their code. -/
 def execBlock (fuel : Nat) (w : World) (h : Nat) (txs : List Tx) (rewards : Escrow) : World × List Status :=
-  let r := execTxs fuel { w with ctx := { gasUsed := none, pending := [] }, st := { w.st with height := h } } txs
+  let r := execTxs fuel { w with ctx := { gasUsed := none, pending := [] }, st := { w.st with height := h, p014 := w.fl.p014 } } txs
   let w' := r.1
   let a := afterBlock w'.st.bal w'.st.escrow h (w'.ctx.pending ++ rewards)
   ({ w' with code := dropCode w'.code w'.st.dead,
